@@ -42,6 +42,7 @@ class Sync:
         # the same load/store events on the canonical flag fields as operations on std::atomic<bool> members.
         self.bitwords = {}
         self.consts = {}          # declaration id -> int: helper parameters bound to a constant at the followed call site
+        self.this_alias = set()   # parameters / reference members of followed helper objects that designate the analysed *this
 
     # ------------------------------------------------------------------ packed flags
     def int_value(self, e, binds=None):
@@ -223,7 +224,33 @@ class Sync:
         b = tu.strip(ks[0], casts=True)
         while b is not None and b.get('kind') == 'UnaryOperator' and b.get('opcode') in ('*', '&'):
             b = tu.strip(tu.kids(b)[0], casts=True)
-        return b is not None and b.get('kind') == 'CXXThisExpr'
+        if b is not None and b.get('kind') == 'CXXThisExpr':
+            return True
+        return self.designates_this(b)
+
+    def designates_this(self, b):
+        """is b a reference (parameter / reference member of a followed helper object) known to be bound to the analysed *this?"""
+        if b is None or not self.this_alias:
+            return False
+        b = self.tu.strip(b, casts=True)
+        if b is None:
+            return False
+        if b.get('kind') == 'DeclRefExpr':
+            return b.get('referencedDecl', {}).get('id') in self.this_alias
+        if b.get('kind') == 'MemberExpr':
+            return self.tu.sd(b).get('d') in self.this_alias
+        return False
+
+    def is_star_this(self, e):
+        """`*this` (of the function being explored), or something already known to designate the analysed object"""
+        tu = self.tu
+        e = tu.strip(e, casts=True) if e is not None else None
+        if e is None:
+            return False
+        if e.get('kind') == 'UnaryOperator' and e.get('opcode') == '*':
+            x = tu.strip(tu.kids(e)[0], casts=True)
+            return x is not None and x.get('kind') == 'CXXThisExpr'
+        return self.designates_this(e)
 
     def const_bool(self, e):
         tu = self.tu
@@ -426,6 +453,8 @@ class Sync:
                 tag = tu.sd(tu.strip(args[1], casts=True)).get('ct', '') or ''
                 if 'defer_lock_t' in tag:
                     held = False
+                elif 'try_to_lock_t' in tag:
+                    held = 'try'        # owned or not: decided where the code branches on owns_lock() / operator bool
                 else:
                     held = None
             elif len(args) > 2:
@@ -441,6 +470,20 @@ class Sync:
             return ('unlock-scope', e[1])
         if e[0] == 'EV':
             return e[1]
+        if e[0] == 'I':
+            # constructor initialiser of a followed helper object: a lock member initialised with a mutex opens a lock scope that
+            # lasts until the member is destroyed ('MD'); a reference member bound to the analysed object designates it
+            init = tu.strip(tu.node(e[1])) if tu.node(e[1]) is not None else None
+            if init is not None and init.get('kind') in ('CXXConstructExpr', 'CXXTemporaryObjectExpr') and \
+                    tu.sd(init).get('rec') in LOCK_RECS:
+                ls = self.lock_decl({'kind': 'DeclStmt', 'inner': [{'kind': 'VarDecl', 'id': ('mem', e[2]), 'inner': [init]}]})
+                if ls:
+                    return ('locks', ls, init)
+            if init is not None and self.designates_this(init) and e[2]:
+                self.this_alias.add(e[2])
+            return None
+        if e[0] == 'MD':
+            return ('unlock-scope', ('mem', e[1]))
         if e[0] != 'S':
             return None
         n = tu.node(e[1])
@@ -533,7 +576,9 @@ class LockState:
             for var, m, held, _v in ev[1]:
                 known = frozenset(set(known) | {(var, m)})
                 if held is None:
-                    prob = 'lock variable constructed in a form that is not modelled (adopt_lock / try_to_lock / not a data member)'
+                    prob = 'lock variable constructed in a form that is not modelled (adopt_lock / not a data member)'
+                elif held == 'try':
+                    known = frozenset(set(known) | {(('try', var), m)})      # not counted as held until a branch says so
                 elif held:
                     locks = frozenset(set(locks) | {(var, m)})
             return locks, known, prob
@@ -553,6 +598,24 @@ class LockState:
         if kind in ('lk-other', 'm-other'):
             return locks, known, 'operation %s on a lock/mutex is not modelled' % ev[2]
         return locks, known, None
+
+    @staticmethod
+    def refine_try(sy, blk, si, locks, known):
+        """branch on `lk.owns_lock()` / `if (lk)` of a try_to_lock variable: on the true edge the mutex is held"""
+        atom, truth = sy.edge_truth(blk, si)
+        if atom is None or atom.get('kind') != 'CXXMemberCallExpr':
+            return locks, known
+        s, obj, _a = sy.tu.call_parts(atom)
+        if s.get('rec') != 'std::unique_lock' or last(s.get('q')) not in ('owns_lock', 'operator bool') or obj is None:
+            return locks, known
+        v = sy.local_var(obj)
+        m = dict(known).get(('try', v))
+        if m is None:
+            return locks, known
+        known = frozenset(p for p in known if p[0] != ('try', v))
+        if truth:
+            locks = frozenset(set(locks) | {(v, m)})
+        return locks, known
 
     @staticmethod
     def holds(locks, mutex_field):
@@ -610,15 +673,26 @@ class Inliner:
     def callee(self, n):
         """function entry if the call node `n` is followed"""
         tu = self.tu
-        if n is None or n.get('kind') not in CALLS:
+        if n is None or n.get('kind') not in CALLS + ('CXXConstructExpr', 'CXXTemporaryObjectExpr'):
             return None
         cf = tu.callee_fn(n)
         if cf is None or cf.get('dep') or tu.cfg(cf) is None:
             return None
         return cf if self.is_own(cf) else None
 
+    def dtor_of(self, type_name):
+        if not hasattr(self, '_dtors'):
+            self._dtors = {}
+            for f in self.tu.functions.values():
+                if f.get('dtor') and not f.get('dep') and self.tu.cfg(f) is not None and f.get('rect'):
+                    self._dtors[f['rect']] = f
+        f = self._dtors.get((type_name or '').replace('const ', '').strip())
+        return f if f is not None and self.is_own(f) else None
+
     def args(self, n, cf):
         ks = self.tu.kids(n)
+        if n.get('kind') in ('CXXConstructExpr', 'CXXTemporaryObjectExpr'):
+            return ks
         a = ks[1:]
         if n.get('kind') == 'CXXOperatorCallExpr' and len(a) == len(cf.get('params', [])) + 1:
             a = a[1:]           # the object expression of a member operator (e.g. a closure's operator())
@@ -660,6 +734,20 @@ class Inliner:
                 self.at = (blk.id, st)
             n = tu.node(e[1]) if e[0] == 'S' else None
             cf = self.callee(n)
+            if e[0] == 'AD':
+                # end of the lifetime of a local object of an own class: its destructor runs here
+                df = self.dtor_of(e[3])
+                if df is not None and not any(x['id'] == df['id'] for x in self.stack) and len(self.stack) < self.max_depth:
+                    outs = []
+                    for rs1 in hooks.pre_call(None, df, [], rs):
+                        key = (df['id'], rs1, None)
+                        if key not in self.memo:
+                            self.memo[key] = self._run(df, [rs1], transfer, refine, hooks)[1]
+                        for (rs2, _rv2, _via) in self.memo[key]:
+                            for r in transfer(blk, i, e, rs2):
+                                if (r, rv) not in outs:
+                                    outs.append((r, rv))
+                    return outs
             if cf is not None:
                 if any(x['id'] == cf['id'] for x in self.stack) or len(self.stack) >= self.max_depth:
                     hooks.problem('recursive or too deep helper call chain through %s' % cf['q'], n)
